@@ -8,7 +8,7 @@ LIMIT = 8.0
 RULE = ("edge-manifold orientable base meshes (tetrahedron, octahedron, cube, icosahedron, torus, grids, fans, annuli, open cube, "
         "ellipsoids; unions of 2-3 components of different size, also with a two-triangle pillow as first / middle / last component) in which every triangle has an interior edge, x flip patterns "
         "(all 2^T for T <= 8 (quick: T <= 6) else sampled, always including none / all / single), x cyclic rotations x relabelling x "
-        "unused vertices x length unit (30%: coordinates scaled by 1e-6, 3e-7, 1e-4 or 1e3); plus non-manifold books and three-cone complexes for the ValueError clause. distinct = hash of (v,t); "
+        "unused vertices; two strips of 1150 triangles (oracle only) x length unit (30%: coordinates scaled by 1e-6, 3e-7, 1e-4 or 1e3); plus non-manifold books and three-cone complexes for the ValueError clause. distinct = hash of (v,t); "
         "non-trivial = at least one triangle flipped relative to a consistent orientation, or a rejected mesh")
 TRUSTED = ["np.unique(axis=0,return_index,return_counts), np.lexsort stability, scipy sparse product / addition keeping stored entries (modelled)"]
 ASSUMPTIONS = ["a call that does not return within 8 s corresponds to OutOfFuel",
@@ -91,6 +91,17 @@ def generate(rng, tier):
                 sc = rng.choice([1e-6, 3e-7, 1e-4, 1e3])
                 vv = [[c * sc for c in x] for x in vv]
             cases.append({"family": name, "v": vv, "t": tt, "flip_pattern": p, "scale": sc})
+    # a long strip (triangle-neighbour graph of diameter > 1000: the flood needs more than a thousand sweeps); too long for the
+    # quadratic in-Coq evaluation, so these two cases are judged by the brute-force oracle only
+    N = 1150
+    vs = [[0.5 * k, float(k % 2), 0.0] for k in range(N + 2)]
+    ts0 = [[k, k + 1, k + 2] if k % 2 == 0 else [k + 1, k, k + 2] for k in range(N)]
+    for pat in ("far_end", "random"):
+        tt = [list(r) for r in ts0]
+        flips = [N - 1] if pat == "far_end" else [k for k in range(N) if rng.random() < 0.5]
+        for k in flips:
+            tt[k] = [tt[k][1], tt[k][0], tt[k][2]]
+        cases.append({"family": "long_strip", "v": vs, "t": tt, "flip_pattern": -2, "scale": 1.0})
     for k in (3, 4, 5):
         v, t = gm.book(k)
         t2, _ = gm.flip_some(t, rng, 0.5)
@@ -129,6 +140,8 @@ def _res(x):
 
 
 def coq_case(case, out):
+    if case["family"] == "long_strip":
+        return None
     if out.get("_timeout"):
         out = {"r1": "OutOfFuel"}
     r2 = out.get("r2", "OtherError")
